@@ -422,6 +422,16 @@ pub fn strategy() -> BoxedStrategy<Case> {
     let ev = proptest::option::weighted(0.5, (proptest::collection::vec(fr(-1.0, 1.0), 6..=6), fr(-1.0, 1.0), fr(-1.0, 1.0)));
     prop_oneof![
         3 => (prob_spec(6, 0.5, 8.0), common(), ev.prop_map(|ev| Rel::Reflect { ev })).prop_map(mk),
+        // runs that FAIL: a pole of the solution inside the interval (u' = rho u^2 with rho u0 theta > 1, or tan), so that the
+        // outcome is decided by the solvers' step-size-underflow / non-finite exits; the mirror image must fail identically
+        1 => ((fr(0.3, 2.0), fr(1.3, 4.0), fr(0.5, 6.0), any::<bool>(), proptest::option::weighted(0.5, (fr(-1.5, 0.1), fr(0.2, 2.0)))), common()).prop_map(|((u0, q, theta, tan, extra), cm)| {
+            let pole = if tan { Block::Tan { rho: q * (std::f64::consts::FRAC_PI_2 - u0.atan()) / theta, u0 } } else { Block::Recip { rho: q / (u0 * theta), sg: 1.0, u0 } };
+            let mut blocks = vec![pole];
+            if let Some((lam, v)) = extra {
+                blocks.push(Block::Real { lam, u0: v });
+            }
+            (ProbSpec { blocks, warp: Warp { theta, k: 0, beta: 0.0 }, mix: None, mag2: 0 }, cm, Rel::Reflect { ev: None })
+        }).prop_map(mk),
         2 => (prob_spec(4, 0.5, 8.0).prop_flat_map(|p| { let n: usize = p.blocks.iter().map(|b| b.dim()).sum(); (Just(p), crate::evgen::recipes(n, 4, 0.4)) }), common()).prop_map(|((p, r), cm)| (p, cm, Rel::ReflectEvents { recipes: r })).prop_map(mk),
         3 => (linear_spec(6, false, 0.5, 8.0), common(), prop_oneof![4 => (-60i32..=60).boxed(), 1 => (-600i32..=600).boxed()].prop_map(|k| Rel::Scale { k })).prop_map(mk),
         2 => (prob_spec(6, 0.5, 8.0), common(), Just(Rel::TolVec)).prop_map(mk),
@@ -439,7 +449,7 @@ pub fn run(ctx: &Ctx, known: &[Known]) -> Report {
     let stats = run_generated(ctx, "C13", "gen", &strategy, &check, cases, known);
     Report {
         id: "C13".into(),
-        rule: "pairs of runs related by an exact symmetry: R1 time reflection z'=-f(-s,z) from -x0 to -xend (with a mirrored affine event half of the time), R2 state and atol scaled by 2^k, k in [-60,60], linear homogeneous systems (time-dependent coefficients allowed), R3 scalar tolerance vs constant vector (rtol, atol or both), R4 m = 2..16 independent copies with first_step given; closed-form problems n<=6, six methods, tolerances 1e-3..1e-9, analytic or finite-difference Jacobian, both directions. Oracle: bit-identical trajectories and statistics for R1, R3 and for R2 with explicit methods or a user Jacobian (tolerance-level agreement for R2 with the FD Jacobian); event times mirror to 1e-11; copies bit-identical among themselves, same accepted/rejected counts and step ends to 1e-6|T| for explicit methods, tolerance-level agreement and +-25%+5 steps for Radau/BDF. Non-trivial = at least 5 accepted steps and (a rejection or at least 10 steps). Distinct = distinct canonical JSON.".into(),
+        rule: "pairs of runs related by an exact symmetry: R1 time reflection z'=-f(-s,z) from -x0 to -xend (with a mirrored affine event half of the time; one case in fourteen has a pole of the solution inside the interval, so that the run and its mirror image must fail in the same way), R2 state and atol scaled by 2^k, k in [-60,60], linear homogeneous systems (time-dependent coefficients allowed), R3 scalar tolerance vs constant vector (rtol, atol or both), R4 m = 2..16 independent copies with first_step given; closed-form problems n<=6, six methods, tolerances 1e-3..1e-9, analytic or finite-difference Jacobian, both directions. Oracle: bit-identical trajectories and statistics for R1, R3 and for R2 with explicit methods or a user Jacobian (tolerance-level agreement for R2 with the FD Jacobian); event times mirror to 1e-11; copies bit-identical among themselves, same accepted/rejected counts and step ends to 1e-6|T| for explicit methods, tolerance-level agreement and +-25%+5 steps for Radau/BDF. Non-trivial = at least 5 accepted steps and (a rejection or at least 10 steps). Distinct = distinct canonical JSON.".into(),
         assumptions: vec![
             "R4 is only claimed with first_step given: the automatic initial step uses an un-normalised norm (not copy invariant by design)".into(),
             "Radau/BDF under R4 only to tolerance: rounding-level changes of the error norm steer discrete decisions (LU reuse, step halving)".into(),
